@@ -151,6 +151,49 @@ if prop == 'C11':
                 viol.append({'doc': text, 'ops': ops[:], 'what': 'an edit on a document object that was edited before differs from the same edit on a fresh parse of the same text', 'same_object': same[1][:300], 'fresh_parse': fresh[1][:300]}); break
             if same[0] != 'ok': continue
             cur = fresh[1]
+# ---- directly applied functions (coverage probe: resolution.function_call_scope was never executed): formal parameters take the
+# supplied argument or their default (a default may name another formal), a missing one is an error, an unbound body name is an error
+if prop == 'C10':
+    from nix_manipulator.resolution import function_call_scope, set_resolution_context, attach_resolution_context
+    from nix_manipulator.expressions.parenthesis import Parenthesis
+    def call_value(text):
+        try:
+            call = parse(text).expr; ps = function_call_scope(call)
+            if ps is None: return 'NOSCOPE'
+            fn = call.name
+            if isinstance(fn, Parenthesis): fn = fn.value
+            out = fn.output; set_resolution_context(out, (ps,)); attach_resolution_context(out, owner=out)
+            v = out.value; g = v.rebuild().strip() if hasattr(v, 'rebuild') else repr(v)
+            return g
+        except ResolutionError: return 'RESERR'
+        except Exception as ex: return 'EXC:' + type(ex).__name__
+    for it in range(max(60, N // 3)):
+        fn_ = ['a', 'b', 'c']; formals = R.sample(fn_, R.randint(1, 3)); defaults = {}; args = {}
+        for f_ in formals:
+            r_ = R.random()
+            if r_ < 0.3: defaults[f_] = str(R.randrange(10, 50))
+            elif r_ < 0.4 and f_ != formals[0]: defaults[f_] = formals[0]          # default naming another formal
+            if R.random() < 0.85: args[f_] = str(R.randrange(50, 99))
+        body = R.choice(fn_ + ['zz']); ell = R.random() < 0.3; extra = R.random() < 0.2
+        if extra and ell: args['q'] = '7'
+        style = R.choice(['literal', 'paren', 'let_ident'])
+        atext = '{ ' + ' '.join('%s = %s;' % kv for kv in args.items()) + ' }' if args else '{ }'
+        head = '({ ' + ', '.join((f_ + ' ? ' + defaults[f_]) if f_ in defaults else f_ for f_ in formals) + (', ...' if ell else '') + ' }: ' + body + ')'
+        text = {'literal': head + ' ' + atext, 'paren': head + ' (' + atext + ')', 'let_ident': 'let args = ' + atext + '; in ' + head + ' args'}[style] + '\n'
+        # expected by Nix's rules for a call with a set pattern
+        def val(nm, seen=()):
+            if nm in seen: return 'RESERR'
+            if nm not in formals: return 'RESERR'
+            if nm in args: return args[nm]
+            if nm in defaults: return defaults[nm] if defaults[nm].isdigit() else val(defaults[nm], seen + (nm,))
+            return 'MISSING'
+        missing = any(f_ not in args and f_ not in defaults for f_ in formals)
+        want = 'RESERR' if missing else val(body)
+        got = call_value(text); count('applied-function/%s/%s' % (style, 'refuse' if want == 'RESERR' else 'value'))
+        if got != want: viol.append({'doc': text, 'what': 'applied function: Nix gives %s for the body name, resolution gives %s' % (want, got)})
+    for text, want in [('(x: x) 5\n', '5'), ('(x: y) 5\n', 'RESERR'), ('({ x }: x) 1\n', 'RESERR'), ('x { a = 1; }\n', 'NOSCOPE')]:
+        got = call_value(text); count('applied-function/fixed')
+        if got != want: viol.append({'doc': text, 'what': 'applied function: expected %s, resolution gives %s' % (want, got)})
 # ---- stacked `with` environments and nothing else (fourth round of seeds): among withs the innermost one that has the name wins;
 # reached through the document-level item access, with an identifier or an attribute set as the body
 if prop == 'C10':
